@@ -5759,3 +5759,87 @@ def split_unrolled_locals(fn):
                             n.id = new
                 done = True
     return done
+
+
+def dict_key_loops(fn):
+    """`D = {"a": x, "b": y}` (bound once, only read by `for k in D:` loops
+    and as `D[k]` inside them) -> `for k, D__v in [("a", x), ("b", y)]:`
+    with `D[k]` spelled `D__v` (the unroller takes it from there)"""
+    from .normalize import Unroll
+    done = False
+    for par in [fn] + list(_walk_own(fn)):
+        for fld in ("body", "orelse", "finalbody"):
+            blk = getattr(par, fld, None)
+            if not isinstance(blk, list):
+                continue
+            for st in list(blk):
+                if not (isinstance(st, ast.Assign) and len(st.targets) == 1
+                        and isinstance(st.targets[0], ast.Name)
+                        and isinstance(st.value, ast.Dict)
+                        and 1 <= len(st.value.keys) <= 12
+                        and all(k is not None and isinstance(k, ast.Constant)
+                                for k in st.value.keys)
+                        and all(Unroll._item_ok(v)
+                                for v in st.value.values)):
+                    continue
+                D = st.targets[0].id
+                nodes = [n for n in ast.walk(fn) if isinstance(n, ast.Name)
+                         and n.id == D]
+                if sum(1 for n in nodes if not isinstance(
+                        n.ctx, ast.Load)) != 1:
+                    continue
+                loads = [n for n in nodes if isinstance(n.ctx, ast.Load)]
+                loops = [lp for lp in ast.walk(fn) if isinstance(lp, ast.For)
+                         and lp.iter in loads and isinstance(
+                             lp.target, ast.Name)]
+                if not loops:
+                    continue
+                covered = {id(lp.iter) for lp in loops}
+                subs = []
+                for lp in loops:
+                    k = lp.target.id
+                    for n in ast.walk(lp):
+                        if isinstance(n, ast.Subscript) and isinstance(
+                                n.ctx, ast.Load) and n.value in loads and \
+                                isinstance(n.slice, ast.Name) and \
+                                n.slice.id == k:
+                            covered.add(id(n.value))
+                            subs.append((lp, n))
+                    if any(isinstance(n, ast.Name) and n.id == k
+                           and isinstance(n.ctx, ast.Store)
+                           and n is not lp.target for n in ast.walk(lp)):
+                        covered = set()
+                if {id(x) for x in loads} != covered:
+                    continue
+                # the values keep their meaning until the loops run
+                vnames = {n.id for v in st.value.values
+                          for n in ast.walk(v) if isinstance(n, ast.Name)}
+                if any(isinstance(n, ast.Name) and n.id in vnames
+                       and isinstance(n.ctx, (ast.Store, ast.Del))
+                       and getattr(n, "lineno", 0) >= st.lineno
+                       for n in ast.walk(fn)):
+                    continue
+                vn = f"{D}__v"
+                if any(isinstance(n, ast.Name) and n.id == vn
+                       for n in ast.walk(fn)):
+                    continue
+                from .normalize import _replace_node
+                for lp, sb in subs:
+                    _replace_node(lp, sb, ast.Name(id=vn, ctx=ast.Load()))
+                for lp in loops:
+                    lp.iter = ast.copy_location(ast.List(elts=[
+                        ast.Tuple(elts=[clone(k_), clone(v_)],
+                                  ctx=ast.Load())
+                        for k_, v_ in zip(st.value.keys, st.value.values)],
+                        ctx=ast.Load()), lp.iter)
+                    lp.target = ast.copy_location(ast.Tuple(elts=[
+                        ast.Name(id=lp.target.id, ctx=ast.Store()),
+                        ast.Name(id=vn, ctx=ast.Store())],
+                        ctx=ast.Store()), lp.target)
+                blk.remove(st)
+                if not blk:
+                    blk.append(ast.copy_location(ast.Pass(), st))
+                done = True
+    if done:
+        ast.fix_missing_locations(fn)
+    return done
